@@ -185,6 +185,12 @@ def analyse(run: Any, expects: Dict[tuple, Expect], retire_probe: bool = True) -
                                  f"(execution {live[0][2]}) is running and no thread node of this execution is in flight",
                                  op=w["op"], tok=w["tok"], seq=w["seq"]))
         W = keep
+        if ea.ex is not None and ea.ex.exec_paths is not None:
+            # known weak spot P6: every finding of an operation that deactivated a nested DAG with non-plain outputs carries the tag
+            p6 = _p6_tags(run, ea.ex)
+            if p6:
+                for w in W:
+                    w["tags"] = sorted(set(w["tags"]) | set(p6))
         if ea.ex is not None and ea.ex.kind == "rerun":
             # second run of an executor: whatever goes wrong in it is the single-use clause (C15.c)
             for w in W:
